@@ -759,7 +759,60 @@ func init() {
 		}
 		return &StrV{Conc: strings.ReplaceAll(a[0], a[1], a[2])}
 	}
+	stubs["strings.ContainsAny"] = func(e *Exec, st *State, fn *ssa.Function, args []Val, where string) Val {
+		chars, ok := e.concStr(args[1])
+		if !ok {
+			panic(&UnsupportedErr{Msg: "strings.ContainsAny with symbolic character set at " + where})
+		}
+		return e.strMapT(args[0], func(x *StrV) *Term {
+			if x.Sym == nil && x.Segs == nil {
+				return e.S.Bool(strings.ContainsAny(x.Conc, chars))
+			}
+			if x.Segs != nil {
+				// literal pieces and decimal renderings: digits and '-' come from the numbers
+				hit := strings.ContainsAny("0123456789-", chars)
+				for _, sg := range x.Segs {
+					if sg.Dec == nil && strings.ContainsAny(sg.Text, chars) {
+						return e.S.True
+					}
+					if sg.Dec != nil && hit {
+						panic(&UnsupportedErr{Msg: "strings.ContainsAny: digits in a rendered number at " + where})
+					}
+				}
+				return e.S.False
+			}
+			var cs []*Term
+			for _, b := range x.Sym {
+				for i := 0; i < len(chars); i++ {
+					cs = append(cs, e.S.Eq(b, e.S.Int(int64(chars[i]))))
+				}
+			}
+			return e.S.Or(cs...)
+		})
+	}
 	stubs["strings.Join"] = func(e *Exec, st *State, fn *ssa.Function, args []Val, where string) Val {
+		if sl, ok := args[0].(*SliceV); ok && sl.Obj != 0 {
+			if _, conc := sl.Len.ConstInt(); !conc {
+				// symbolic length n <= cap: the join of the first k elements for k = n
+				var res Val = &StrV{}
+				var acc Val = &StrV{}
+				var alts []Val
+				alts = append(alts, acc)
+				for i := 0; i < sl.Cap; i++ {
+					p := e.load(st, &Ptr{Obj: sl.Obj, Path: appendStep(sl.Path, Step{Idx: e.slIdx(sl, e.S.Int(int64(i)))})}, where)
+					if i > 0 {
+						acc = e.strConcat(acc, args[1])
+					}
+					acc = e.strConcat(acc, p)
+					alts = append(alts, acc)
+				}
+				res = alts[len(alts)-1]
+				for k := len(alts) - 2; k >= 0; k-- {
+					res = e.mergeVal(e.S.Eq(sl.Len, e.S.Int(int64(k))), alts[k], res)
+				}
+				return res
+			}
+		}
 		var acc Val = &StrV{}
 		for i, p := range e.sliceElemsOrNil(st, args[0], where) {
 			if i > 0 {
